@@ -109,8 +109,10 @@ func Changes(cmd CommandRunner, baseBranch string, filter PathFilter) ([]*FileCh
 			dstPath = srcPath
 		}
 
-		// This should never really happen since git doesn't track directories, only files.
-		if isDir, _ := isDirectoryPath(dstPath); isDir {
+		// Git doesn't track directories, only files, but a symlink pointing at a directory is a file for git.
+		// A real directory found at this path now only tells us that the path used to be a file
+		// in the commit we're looking at, and that must not be skipped.
+		if isDir, _ := isSymlinkToDirectory(dstPath); isDir {
 			slog.Debug("Skipping directory entry change", slog.String("path", dstPath))
 			continue
 		}
@@ -378,7 +380,15 @@ func CountLines(body []byte) (lines []int) {
 	return lines
 }
 
-func isDirectoryPath(path string) (bool, error) {
+func isSymlinkToDirectory(path string) (bool, error) {
+	linkInfo, err := os.Lstat(path)
+	if err != nil {
+		return false, err
+	}
+	if linkInfo.Mode()&os.ModeSymlink == 0 {
+		return false, nil
+	}
+
 	fileInfo, err := os.Stat(path)
 	if err != nil {
 		return false, err
